@@ -357,7 +357,12 @@ def render_paths(N, nodes, limit: int = 512, for_zero: bool = False, subst=None,
                         out.extend(run(node.else_, [q]) if node.else_ else [q])
                 paths = out
             elif isinstance(node, N.For):
-                once = run(node.body, [TPath(p.parts, p.conds + ((f"for {xs(node.target)} in {xs(node.iter)}", True),), p.ph, p.env, p.cnodes) for p in paths])
+                def for_cond(p):
+                    # the loop as a path condition, spelled in the caller's terms (macro parameters substituted); a filtered loop
+                    # (`for x in xs if c`) carries its filter
+                    with j2front.xs_with(_sub_of(N, p)):
+                        return f"for {xs(node.target)} in {xs(node.iter)}" + (f" if {xs(node.test)}" if node.test is not None else "")
+                once = run(node.body, [TPath(p.parts, p.conds + ((for_cond(p), True),), p.ph, p.env, p.cnodes) for p in paths])
                 paths = once + (paths if for_zero else [])
             elif j2front.is_assert_false(N, node):
                 paths = []  # {% assert False %}: generation fails here, no text is produced on this path
